@@ -1402,6 +1402,111 @@ func genAfterLock(r *rand.Rand) core.Case {
 	return core.Case{Kind: "after-lock", Ops: g.ops}
 }
 
+// genLockedPOL: the prevote decision of a LOCKED node (defaultDoPrevote). Lock B; in the following
+// rounds the round's prevotes (for B / nil / another block / no quorum) arrive on time or only after
+// the node has precommitted nil; then complete proposals for OTHER blocks arrive whose POLRound is
+// -1, below, equal to or above LockedRound, or round-1 — before or after the propose timeout.
+func genLockedPOL(r *rand.Rand) core.Case {
+	w := smallWorld(r)
+	n := len(w.powers)
+	self := r.Intn(n)
+	line := cfgLine(w, self, r.Intn(2) == 0, false, false)
+	s := newSim(line)
+	defer s.close()
+	g := &gen{r: r, s: s, ops: []string{line}}
+	g.do("timeout r=0 s=newHeight")
+	bB := 1 + r.Intn(2)
+	if w.proposers[0] == self {
+		bB = 0
+	}
+	bC := (bB + 1) % nValid
+	g.propose(0, bB, -1, true)
+	g.votesFrom("pv", 0, strconv.Itoa(bB), g.others())
+	g.nextRound(0)
+	round := 1
+	mid := 1 + r.Intn(3)
+	for k := 0; k < mid && g.live(); k++ {
+		// what the others prevote in this round
+		bid := []string{strconv.Itoa(bB), strconv.Itoa(bB), "nil", strconv.Itoa(bC), ""}[r.Intn(5)]
+		late := r.Intn(3) != 0
+		if r.Intn(3) == 0 {
+			g.propose(round, bB, r.Intn(round+1)-1, true)
+		}
+		if g.live() {
+			g.do(fmt.Sprintf("timeout r=%d s=propose", round))
+		}
+		deliver := func() {
+			o := g.others()
+			if bid == "" { // no quorum: split
+				g.votesFrom("pv", round, strconv.Itoa(bB), o[:1])
+				g.votesFrom("pv", round, "nil", o[1:2])
+				return
+			}
+			g.votesFrom("pv", round, bid, o)
+		}
+		if !late {
+			deliver()
+		}
+		// nil precommits of the others: the node precommits (nil unless it saw a polka) ...
+		g.votesFrom("pc", round, "nil", g.others())
+		if late {
+			deliver() // ... and sees this round's prevotes only now
+		}
+		if g.live() {
+			g.do(fmt.Sprintf("timeout r=%d s=precommitWait", round))
+		}
+		round++
+	}
+	// complete proposals for other blocks with every kind of POL round
+	for k := 0; k < 2+r.Intn(2) && g.live(); k++ {
+		rs := s.node.RS()
+		round = int(rs.Round)
+		if round > 28 {
+			break
+		}
+		lr := int(rs.LockedRound)
+		pol := -1
+		switch r.Intn(6) {
+		case 0:
+			pol = -1
+		case 1:
+			if lr > 0 {
+				pol = r.Intn(lr)
+			}
+		case 2:
+			if lr >= 0 && lr < round {
+				pol = lr
+			}
+		case 3, 4:
+			if lr+1 < round {
+				pol = lr + 1 + r.Intn(round-lr-1)
+			}
+		default:
+			pol = round - 1
+		}
+		other := bC
+		if rs.LockedBlock != nil && s.blockName(rs.LockedBlock) == strconv.Itoa(bC) {
+			other = bB
+		}
+		before := r.Intn(3) != 0
+		if before {
+			g.propose(round, other, pol, r.Intn(8) != 0)
+		}
+		if g.live() {
+			g.do(fmt.Sprintf("timeout r=%d s=propose", round))
+		}
+		if !before {
+			g.propose(round, other, pol, true)
+		}
+		// the others prevote the proposal only partly: no new quorum in this round
+		o := g.others()
+		g.votesFrom("pv", round, strconv.Itoa(other), o[:1])
+		g.nextRound(round)
+	}
+	stat("locked-pol-cases")
+	return core.Case{Kind: "locked-pol", Ops: g.ops}
+}
+
 func main() {
 	// C02_CFG="1,1,1,1:self:hrs" prints the cfg line for that configuration (for hand-written corpus cases)
 	if e := os.Getenv("C02_CFG"); e != "" {
@@ -1437,6 +1542,9 @@ func main() {
 			for i := 0; i < n/6; i++ {
 				emit(genAfterLock(r))
 			}
+			for i := 0; i < n/6; i++ {
+				emit(genLockedPOL(r))
+			}
 			if tier == "thorough" {
 				for i := 0; i < n/10; i++ {
 					emit(genCase(r, "node", 150, 260)) // long runs reaching higher rounds
@@ -1453,7 +1561,7 @@ func main() {
 			}
 			return false
 		},
-		Rule: "a real consensus.State (kvstore app, 3..7 validators from 7 power configurations incl. one validator above 2/3, FilePV or MockPV signer or no key, in-memory stores, nil WAL, recording ticker) driven synchronously; generated adaptively against the live node: proposals by the right/wrong proposer with POL rounds (-2,-1,earlier,round-1,>=round), complete blocks (3 valid, 1 invalid, 2 unknown ids), single votes and quorum bursts for current/earlier/future/catch-up rounds from 3 peers incl. equivocation, bad signatures, out-of-range indices, peer maj23 claims, timeouts (scheduled, stale, arbitrary, and in kind=future for rounds not reached), txs-available; scripted scenarios: lock-then-competing-polka, stale-quorum (lock, re-lock in later rounds, then the held-back older quorums for nil/another block, then a different proposal), late-pol (proposal with POL round, prevote at timeout, block completes in step Prevote, then the POL prevotes), after-lock (adaptive: once locked, only quorums of rounds up to the lock round and competing proposals). Non-trivial = the node signed at least one vote; distinct by hash of the op list",
+		Rule: "a real consensus.State (kvstore app, 3..7 validators from 7 power configurations incl. one validator above 2/3, FilePV or MockPV signer or no key, in-memory stores, nil WAL, recording ticker) driven synchronously; generated adaptively against the live node: proposals by the right/wrong proposer with POL rounds (-2,-1,earlier,round-1,>=round), complete blocks (3 valid, 1 invalid, 2 unknown ids), single votes and quorum bursts for current/earlier/future/catch-up rounds from 3 peers incl. equivocation, bad signatures, out-of-range indices, peer maj23 claims, timeouts (scheduled, stale, arbitrary, and in kind=future for rounds not reached), txs-available; scripted scenarios: lock-then-competing-polka, stale-quorum (lock, re-lock in later rounds, then the held-back older quorums for nil/another block, then a different proposal), late-pol (proposal with POL round, prevote at timeout, block completes in step Prevote, then the POL prevotes), locked-pol (locked node; the following rounds' prevotes for the locked block / nil / another block / no quorum arrive on time or after its nil precommit; then complete proposals for other blocks with POLRound -1, <, =, > LockedRound or round-1, before/after the propose timeout), after-lock (adaptive: once locked, only quorums of rounds up to the lock round and competing proposals). Non-trivial = the node signed at least one vote; distinct by hash of the op list",
 		Assumptions: []string{
 			"one height; a block id stands for (hash, part-set header) of a one-part block; signatures ideal (a vote either verifies for its validator or not)",
 			"own messages are processed in FIFO order right after the input that caused them (the 1000-slot internal queue never overflows)",
